@@ -14,6 +14,7 @@ import (
 	"path/filepath"
 	"sort"
 	"strings"
+	"sync"
 	"time"
 
 	"github.com/agglayer/aggkit/bridgesync"
@@ -668,6 +669,7 @@ func run(in In, dir string, n int) (out Out) {
 
 func main() {
 	propFlag := flag.String("prop", "c01", "generator: c01|c04|c07|c08")
+	parFlag := flag.Int("par", 1, "cases run concurrently in this process (own database each): as the node's syncers do, several trees hash and store at the same time")
 	f := hlib.ParseFlags()
 	hlib.QuietLogs()
 	prop := *propFlag
@@ -690,7 +692,27 @@ func main() {
 	defer os.RemoveAll(dir)
 	w := hlib.NewWriter(f.Out)
 	defer w.Close()
-	for i, in := range ins {
-		w.Emit(run(in, dir, i))
+	if *parFlag <= 1 {
+		for i, in := range ins {
+			w.Emit(run(in, dir, i))
+		}
+		return
+	}
+	// concurrent processors in one process; results are emitted in input order (every case is deterministic on its own)
+	outs := make([]any, len(ins))
+	var wg sync.WaitGroup
+	sem := make(chan struct{}, *parFlag)
+	for i := range ins {
+		wg.Add(1)
+		sem <- struct{}{}
+		go func(i int) {
+			defer wg.Done()
+			defer func() { <-sem }()
+			outs[i] = run(ins[i], dir, i)
+		}(i)
+	}
+	wg.Wait()
+	for _, o := range outs {
+		w.Emit(o)
 	}
 }
